@@ -18,4 +18,5 @@ var extraCmds = map[string]func([]string){
 	"load":   records.LoadMain,
 	"env":    records.EnvMain,
 	"probe":  records.ProbeMain,
+	"scale":  records.ScaleMain,
 }
